@@ -925,8 +925,10 @@ func (env *specEnv) call(x *SCall) SV {
 		}
 		name, _ := strconv.Unquote(lit.Val)
 		base := name
-		if i := strings.Index(base, "["); i > 0 && !strings.HasPrefix(base, "[") {
-			base = base[:i] // generic instance "pkg.T[K, V]": resolve the origin; the id is keyed by the full string
+		if i := strings.Index(base, "["); i > 0 {
+			if c := base[i-1]; c == '_' || c >= '0' && c <= '9' || c >= 'a' && c <= 'z' || c >= 'A' && c <= 'Z' {
+				base = base[:i] // generic instance "pkg.T[K, V]": resolve the origin; the id is keyed by the full string
+			}
 		}
 		if e.W.parseTypeName(base) == nil {
 			// a type that is not part of the loaded program: no value can have it as dynamic type
